@@ -62,7 +62,7 @@ def base_configs(tier):
         ["".join(w) for n in (1, 2, 3) for w in itertools.product("IXYZ", repeat=n)]
     out["PauliRot"] = [(f"[{w}]", 1, (lambda P, wires, w=w: qp.PauliRot(P(0), w, wires=wires)), len(w)) for w in words]
     out["PCPhase"] = [(f"[n={n},dim={d}]", 1, (lambda P, wires, d=d: qp.PCPhase(P(0), d, wires=wires)), n)
-                      for n in (1, 2) for d in range(0, 2 ** n + 1)]
+                      for n in ((1, 2, 3) if tier == "quick" else (1, 2, 3, 4)) for d in range(0, 2 ** n + 1)]
     out["GlobalPhase"] = [("", 1, (lambda P, wires: qp.GlobalPhase(P(0))), 0)]
     out["Identity"] = [(f"[n={n}]", 0, (lambda P, wires: qp.Identity(wires=wires)), n) for n in (1, 2)]
     mcx = []
@@ -84,6 +84,12 @@ def _unit(ps):
     return np.exp(1j * np.array(ps, dtype=float))
 
 
+def _controlled(base, cw, cv):
+    """the repository's own convention (ops/functions/assert_valid.py): Controlled for Operator1, ControlledOp2 otherwise"""
+    ctrl = qp.ops.Controlled if isinstance(base, Operator1) else qp.ops.ControlledOp2
+    return ctrl(base, cw, cv)
+
+
 def all_configs(tier):
     """every registry name we can instantiate -> list of Config; plus the list of names we cannot (with reason)"""
     from pennylane.decomposition import decomposition_rule as dr
@@ -93,7 +99,7 @@ def all_configs(tier):
     ctrl_variants = [([1], "c1"), ([0], "c0"), ([1, 0], "c10")]
     if tier != "quick":
         ctrl_variants += [([1, 1], "c11"), ([0, 1, 1], "c011")]
-    pow_ints = [2, 3, -1, 0] if tier == "quick" else [2, 3, 4, -1, -2, 0, 1]
+    pow_ints = list(range(-3, 10)) if tier == "quick" else list(range(-9, 19))
     for name in sorted(reg):
         m = re.fullmatch(r"(Adjoint|Pow|C)\((\w+)\)", name)
         bname = m.group(2) if m else name
@@ -116,8 +122,7 @@ def all_configs(tier):
                 for cv, cl in ctrl_variants:
                     cw = [10 + k for k in range(len(cv))]
                     configs.append(Config(name, f"{label}[{cl}]",
-                                          (lambda P, mk=mk, wires=wires, cw=cw, cv=cv: qp.ops.op_math.Controlled(
-                                              mk(P, wires), control_wires=cw, control_values=cv)), npar, False))
+                                          (lambda P, mk=mk, wires=wires, cw=cw, cv=cv: _controlled(mk(P, wires), cw, cv)), npar, False))
     return configs, skipped
 
 
@@ -207,6 +212,17 @@ def op_small_matrix(op):
     if isinstance(op, qp.measurements.MeasurementProcess) or type(op).__name__ in ("MidMeasure", "MidMeasureMP", "PauliMeasure", "Conditional"):
         raise HasMCM(type(op).__name__)
     wires = list(op.wires)
+    z = getattr(op, "z", None)
+    if type(op).__name__.startswith("Pow") and isinstance(z, (int, np.integer)) and not isinstance(z, bool) \
+            and list(op.base.wires) == wires:
+        # integer power == repeated product of the base's exact matrix (negative: conjugate transpose, bases are unitary);
+        # numpy's matrix_power/inv would run in binary64.  Pow.matrix itself is under contract in C03.
+        from .scalar import pm_dagger, pm_matmul
+        B = op_small_matrix(op.base)
+        P = pm_eye(B.shape[0])
+        for _ in range(abs(int(z))):
+            P = pm_matmul(B, P)
+        return pm_dagger(P) if z < 0 else P
     op = lift_float_params(op)
     try:
         m = qp.matrix(op, wire_order=wires) if wires else qp.matrix(op)
